@@ -2,6 +2,7 @@ import Mimium.Proofs.Layout
 import Mimium.Proofs.FlatTreeTop
 import Mimium.Proofs.FlatTreeLabel
 import Mimium.Proofs.FlatTreeEval
+import Mimium.Proofs.FlatTreeVisits
 /-!
 # C05 — compile-time state layout matches run-time state accesses
 
@@ -39,9 +40,16 @@ layout with distinct sibling sites, every conforming tree, every operand payload
   layout's cells gives the same value and store (or the same error) and agreeing trees; `C05_same_words_agree`: conforming
   trees with the same flat words agree.  Hence `C05_same_words_same_eval_future`: the values a function instance returns,
   sample after sample, are a function of its flat state words alone — the flat storage loses nothing the evaluator can see.
-NOT proved: that the sites a given function BODY evaluates are visited in layout order, once each (this is mirgen's
-bookkeeping; it is judged on the recorded traces by `conforms`), i.e. `eval` of a whole body is not proved equal to
-`treeNode` of its layout with the payload it computes; state inside `if` arms (finding F3) breaks that on the pinned tree.
+* `C05_eval_state_effect_is_tree_ops` (induction over the fuel, all 18 constructs): for an expression that VISITS the
+  cells `seg` in this order, once each (`Visits`: operands before the operation, arguments left to right before the call,
+  stateless `if` arms), the state effect of `Core.eval` IS `treeCells seg ps` for the payload `ps` of operands the evaluation
+  computes; `C05_eval_instance_is_flat_call`: hence one sample of a function instance in the reference semantics (zero-init
+  of `self`, body, store the returned value) and the state instructions of the call on the flat storage commute with
+  `serialize` — the flat machine simulates the evaluator's state, access sequence `expectedTrace`, in bounds.
+NOT proved: that mirgen publishes, for each function, the cells its body visits in evaluation order (`Visits` / `Covers` are
+hypotheses relating a program to its published layout; mirgen is judged on the recorded traces by `conforms`; state inside
+`if` arms — finding F3 — violates `Visits` on the pinned tree), and that returned values have the word count of their `Feed`
+cell (`NPayOk`, a typing fact; soundness of the type checker is not proved, see C03).
 -/
 namespace Mimium.Layout
 open Mimium.StateTree
@@ -275,6 +283,52 @@ theorem C05_same_words_same_eval_future (fuel : Nat) (P : Prog) (lay : LNode) (b
     (h : serialize lay a = serialize lay b) :
     instRun fuel P lay.self body samples a = instRun fuel P lay.self body samples b :=
   instRun_agree fuel P lay body hl hc samples a b (agree_of_words lay a b ha hb h)
+
+/-- **the evaluator's state effect is the per-site tree operations.**  If `e` visits the cells `seg` in this order
+(`Visits`), a successful evaluation changes the state of the current function instance exactly as `treeCells seg ps` does,
+for some payload `ps` shaped like `seg` (the operands the evaluation computed) -/
+theorem C05_eval_state_effect_is_tree_ops (P : Prog) (rt : Rt) (fuel : Nat) (e : Expr) (seg : List LCell) (env : Env)
+    (σ : Store) (st : SNode) (v : Val) (σ' : Store) (st' : SNode)
+    (hv : Visits P e seg) (h : eval fuel P rt env e σ st = .ok (v, σ', st')) :
+    ∃ ps, PayShapeL seg ps ∧ st' = (treeCells seg ps st).1 :=
+  (eval_visits P rt fuel).1 e seg env σ st v σ' st' hv h
+
+/-- **one sample of a function instance: reference evaluator = flat machine.**  Let the body visit the cells of the
+labelled layout in order.  One sample in the reference semantics (`self` zero-initialised if absent, body evaluated
+against the instance's tree `st`, returned value stored as the new `self` — `eval`'s `call`, `Machine.step`) leaves the tree
+`finSelf lay.self st1 v`; this is `treeNode` for the payload the evaluation computed, and — provided the returned values
+have the word counts of their `Feed` cells — the state instructions of the call, run on the flat image of `st` anywhere
+in a larger storage, perform exactly `expectedTrace lay.sk`, stay in bounds and leave the flat image of that next tree,
+which conforms again (so the statement iterates over samples) -/
+theorem C05_eval_instance_is_flat_call (fuel : Nat) (P : Prog) (rt : Rt) (env : Env) (σ : Store) (lay : LNode)
+    (body : Expr) (st : SNode) (v : Val) (σ' : Store) (st1 : SNode)
+    (hl : lay.Ok) (hc : Conforms lay st) (hvis : Visits P body lay.cells)
+    (h : eval fuel P rt env body σ (initSelf lay.self st) = .ok (v, σ', st1)) :
+    ∃ ps, PayShapeL lay.cells ps ∧ finSelf lay.self st1 v = (treeNode lay ⟨v, ps⟩ st).1 ∧
+      (NPayOk lay ⟨v, ps⟩ → ∀ pre post : List UInt64,
+        vmRun ⟨pre.length, pre ++ serialize lay st ++ post⟩ (flatNode lay ⟨v, ps⟩) =
+          some (⟨pre.length, pre ++ serialize lay (finSelf lay.self st1 v) ++ post⟩, (treeNode lay ⟨v, ps⟩ st).2) ∧
+        accessesOf pre.length (flatNode lay ⟨v, ps⟩) = expectedTrace lay.sk pre.length ∧
+        Conforms lay (finSelf lay.self st1 v)) := by
+  obtain ⟨ps, hp, he⟩ := treeNode_of_eff lay st v st1 ((eval_visits P rt fuel).1 body _ env σ _ v σ' st1 hvis h)
+  refine ⟨ps, hp, he, fun hpay pre post => ?_⟩
+  have := C05_flat_eq_tree lay ⟨v, ps⟩ st pre post hl hc hpay
+  rw [he]
+  exact ⟨this.2.2.1, this.1, this.2.2.2⟩
+
+/-! non-vacuity of `Visits`: the body `self + (mem(x) + f(delay(3, x, 1)))` with `f(y) = mem(y)` visits
+`[mem 0, delay 1 3, child 2 [mem 0]]` -/
+example :
+    let P : Prog := ⟨[], [⟨"f", ["y"], .mem (.var "y") 0, none⟩], ⟨"dsp", ["x"], .lit 0, none⟩⟩
+    let body : Expr := .bin .add .self (.bin .add (.mem (.var "x") 0) (.call "f" [.delay 3 (.var "x") (.lit 1) 1] 2))
+    Visits P body [.mem 0, .delay 1 3, .child 2 none [.mem 0]] := by
+  intro P body
+  have hf : ∀ d, findFn P.fns "f" = some d → d = ⟨"f", ["y"], .mem (.var "y") 0, none⟩ := by
+    intro d hd; simp [P, findFn] at hd; exact hd.symm
+  have h : Visits P body ([] ++ (([] ++ [.mem 0]) ++ ((([] ++ [] ++ [.delay 1 3]) ++ []) ++ [.child 2 none ([] ++ [.mem 0])]))) :=
+    .bin .self (.bin (.mem .var) (.call (.cons (.delay .var .lit) .nil)
+      (fun d hd => by rw [hf d hd]) (fun d hd => by rw [hf d hd]; exact .mem .var)))
+  simpa using h
 
 /-! non-vacuity of the three theorems above: a body `self + mem(x) + f(delay(3, x, 1))` with `f(y) = mem(y)`,
 covered by the layout `[mem 0, delay 1 3, child 2 [mem 0]]`; the empty tree and the all-zero canonical tree are
